@@ -3,8 +3,8 @@ import GoomVerif.Model.X86Dec
     "A successful decode of a real instruction has `Opcode ≠ 0`" is **false** for the decoder as it is: `00 00` (`ADD [RAX], AL`)
     decodes with `err == nil`, `Op = ADD`, `Len = 2` and `Opcode = 0x00000000` (opcode byte 00, ModRM 00).  Harmless for goom — that
     instruction has no PC-relative field, and it is the all-zero padding pattern — but it means the unconditional statement cannot be
-    a theorem.  What fixBlock needs is the weaker `C16.pcrel_opcode_nonzero` (see Props/C16.lean), checked on every evaluation by the
-    oracle of checks/C16.py. -/
+    a theorem.  What fixBlock needs is the weaker `C16.pcrel_opcode_nonzero` (Props/C16.lean), which IS proved, and is also checked on
+    every evaluation by the oracle of checks/C16.py. -/
 namespace Findings.C16
 open X86Dec
 
